@@ -31,7 +31,7 @@ theorem normNL_cons (c : Char) (rest : List Char) : normNL (c :: rest) =
       | [] => [LF]
       | d :: rest' => if d = LF then LF :: normNL rest' else LF :: normNL (d :: rest')
     else c :: normNL rest := by
-  rw [normNL.eq_def]
+  rw [normNL.eq_def]; rfl
 
 theorem lexFrom_cons (cur : Nat) (c : Char) (rest : List Char) : lexFrom cur (c :: rest) =
     if c = FF then ⟨LF, cur⟩ :: lexFrom (cur + 1) rest
@@ -42,11 +42,12 @@ theorem lexFrom_cons (cur : Nat) (c : Char) (rest : List Char) : lexFrom cur (c 
         if d = LF then ⟨LF, cur + 1⟩ :: lexFrom (cur + 2) rest'
         else ⟨LF, cur⟩ :: lexFrom (cur + 1) (d :: rest')
     else ⟨c, cur⟩ :: lexFrom (cur + c.utf8Size) rest := by
-  rw [lexFrom.eq_def]
+  rw [lexFrom.eq_def]; rfl
 
 theorem kinds_lexFrom (n : Nat) (s : List Char) : kinds (lexFrom n s) = normNL s := by
-  fun_induction lexFrom n s <;> simp_all [kinds, normNL_cons]
-  · simp [normNL]
+  fun_induction lexFrom n s
+  · simp [kinds, normNL]
+  all_goals (rw [normNL_cons]; simp_all [kinds])
 
 /-- The kinds the parsers see are the text with FF, CRLF and CR written as LF. -/
 theorem C18_lex_kinds (s : List Char) : kinds (lex s) = normNL s := kinds_lexFrom 0 s
@@ -250,8 +251,8 @@ theorem C18_nlInvariantAt (k : NL) (s : List Char) : nlInvariantAt k s = true :=
   refine ⟨C18_lex_newline_invariant k _ hc, ?_⟩
   by_cases hk : k = .crlf
   · subst hk; simp [C18_lex_positions_crlf _ hc hf]
-  · have : (k == NL.crlf) = false := by simpa using hk
-    simp [this, C18_lex_positions_one_byte k hk _ hc]
+  · have e := C18_lex_positions_one_byte k hk _ hc
+    simp [hk, e]
 
 /-! ### byte-order mark -/
 
@@ -266,7 +267,9 @@ theorem C18_bom_prefix (s : List Char) :
   have h3 : BOM.utf8Size = 3 := by decide
   constructor
   · simp [lex, lexFrom_cons, h1, h2, h3]
-  · simp [lex, lexFrom_cons, h1, h2, kinds]
+  · have e : kinds (lex (BOM :: s)) = BOM :: kinds (lexFrom 3 s) := by
+      simp [lex, lexFrom_cons, h1, h2, h3, kinds]
+    rw [e, kinds_lexFrom, C18_lex_kinds]
 
 example : (lex (BOM :: ['a'])).map (·.pos) = [0, 3] := by decide
 
@@ -296,16 +299,11 @@ example : identNorm (identSwap ['a', '_', 'b', '-', 'c']) = ['a', '-', 'b', '-',
 theorem normChar_eq_iff (a b : Char) : normChar a = normChar b ↔ sameUpTo a b := by
   unfold normChar sameUpTo
   by_cases ha : a = '_' <;> by_cases hb : b = '_' <;> simp_all
-  · constructor
-    · intro h; right; exact h.symm
-    · rintro (h | h)
-      · exact absurd h.symm hb
-      · exact h.symm
-  · constructor
-    · intro h; right; exact h
-    · rintro (h | h)
-      · exact absurd h ha
-      · exact h
+  constructor
+  · intro h; right; exact h.symm
+  · rintro (h | h)
+    · exact absurd h.symm hb
+    · exact h.symm
 
 /-- Two names have the same normal form exactly when they are equal up to `_`/`-`
     (same length, position-wise equal or both in {`_`, `-`}). -/
